@@ -241,6 +241,46 @@ def check(ctx, replay=None):
         if missing:
             violate("direct:export", {"what": f"the Rust library no longer exports {missing[:5]} although diplomat::attr must not affect it"})
     # --- malformed stream: `auto` where it is not allowed, unknown supports values, auto-gated disable
+    # --- several renames on one inheritance path, more than one of them satisfied: the innermost, and among attributes of one item the
+    # last, decides (Attrs::from_ast folds the impl block's attributes, then the method's own, over the inherited value)
+    dbl = []
+    star, bc, bj, bd, bn = ("star",), ("b", "cpp"), ("b", "js"), ("b", "dart"), ("b", "nanobind")
+    for impl_a, meth_a in (([(star, "implname")], [(bc, "cppname")]), ([], [(star, "general"), (bj, "forjs")]), ([], [(bj, "forjs"), (star, "general")]),
+                           ([(bc, "fromimpl")], [(bj, "frommeth")]), ([(star, "first"), (star, "second")], []), ([(star, "implname")], [(star, "methname")]),
+                           ([(bd, "dartimpl"), (star, "anyimpl")], [(bn, "nbmeth")]), ([(("not", bc), "notcpp")], [(("any", [bc, bj]), "cppjs")]),
+                           ([], [(bn, "nbfirst"), (bd, "dartsecond"), (star, "last")]), ([(star, "outer")], [(("all", [bc, bj]), "never")])):
+        k = len(dbl)
+        dbl.append({"k": k, "impl": [(f, f"{n}{k}") for f, n in impl_a], "meth": [(f, f"{n}{k}") for f, n in meth_a]})
+    dsrc = "#[diplomat::bridge]\nmod ffi {\n    use diplomat_runtime::DiplomatWrite;\n    #[diplomat::opaque]\n    pub struct Dbl;\n"
+    for c in dbl:
+        ra = lambda l, ind: "".join(f'{ind}#[diplomat::attr({rust_f(f)}, rename = "{n}")]\n' for f, n in l)
+        dsrc += ra(c["impl"], "    ") + "    impl Dbl {\n" + ra(c["meth"], "        ") + f"        pub fn dbl{c['k']}(&self, w: &mut DiplomatWrite) {{}}\n    }}\n"
+    dsrc += "}\n"
+    dpath = os.path.join(d, "lib_double_rename.rs")
+    open(dpath, "w").write(dsrc)
+    for b in RENAMERS:
+        o = os.path.join(d, f"out_dbl_{b}")
+        q = e2e.run_tool(b, dpath, o, config=CFG)
+        if q.returncode != 0:
+            violate(f"direct:rename:double", {"backend": b, "what": f"diplomat-tool {b} fails on a bridge whose methods carry several rename attributes", "stderr": q.stderr[-600:], "lib_rs": dsrc})
+            continue
+        tf = os.path.join(o, type_file(b, o, "Dbl"))
+        txt = open(tf).read() if os.path.exists(tf) else ""
+        for c in dbl:
+            k = c["k"]
+            cands = [n for _, n in c["impl"] + c["meth"]] + [f"dbl{k}"]
+            present = [n for n in cands if re.search(r"\b%s\b" % n, txt.replace(f"Dbl_dbl{k}", ""))]
+            observed = present[0] if len(present) == 1 else "?"
+            sat = [n for f, n in c["impl"] + c["meth"] if denote(f, b, support, others)]
+            want = sat[-1] if sat else f"dbl{k}"
+            cl = lambda l: clist([f"({coq_f(f)}, PRename {cstr(n)})" for f, n in l])
+            goals.append(f"String.eqb (rendered_name (method_attrs {cstr(b)} [] {cl(c['impl'])} {cl(c['meth'])}) {cstr('dbl%d' % k)}) {cstr(observed)}")
+            meta.append(({"double_rename": c}, b))
+            if observed != want:
+                violate("direct:rename:double", {"backend": b, "impl_attrs": [f'#[diplomat::attr({rust_f(f)}, rename = "{n}")]' for f, n in c["impl"]],
+                                                 "method_attrs": [f'#[diplomat::attr({rust_f(f)}, rename = "{n}")]' for f, n in c["meth"]],
+                                                 "what": f"method dbl{k} is rendered as {observed} by {b}; the innermost / last rename whose condition holds for {b} is {want}",
+                                                 "lib_rs": dsrc})
     bad = [("auto",), ("not", ("auto",)), ("all", [("b", "cpp"), ("auto",)]), ("any", [("b", "js"), ("auto",)]), ("nv", "supports", "bogus_flag"),
            ("any", [("b", "c"), ("nv", "supports", "bogus_flag")]), ("all", [("b", "dart"), ("nv", "supports", "nope")]),
            ("not", ("all", [("b", "kotlin"), ("auto",)])), ("any", [("auto",), ("b", "c")]), ("all", []), ("any", []), ("nv", "foo", "bar")]
@@ -279,7 +319,7 @@ def check(ctx, replay=None):
     if fails and not ctx.violations:
         for f in fails[:3]:
             c, b = meta[f]
-            ctx.violation(f"corr:{c['payload'] == 'disable' and 'disable' or 'rename'}:{c['place']}",
+            ctx.violation(f"corr:{c.get('payload', 'rename') == 'disable' and 'disable' or 'rename'}:{c.get('place', 'double')}",
                           {"canary": c, "backend": b, "broken": "correspondence goal " + goals[f][:400] +
                            " (Cfg/Model.v + gen/Tables.v no longer describe the implementation); the direct check found no item with a wrong presence"}, False)
     # the historical backend names with a trailing 2 (c2, cpp2, js2, ...) select the same backend: conditions naming the backend
